@@ -19,6 +19,10 @@ from vlib import core
 from checks import semantics_common as sc
 
 PY_LANG = "    - python:\n        generate_json_marshaller: true\n"
+# Go: only what C10 / C11 speak of - constructors and the JSON (un)marshallers. Equals / Validate / the strict decoder are other
+# properties' subjects (C13, C08): generated with them, a defect that makes THEIR code not compile would remove the whole package and
+# hide the constructor / wire behaviour of the same change (MUTATION_CLASSES 11, 15)
+GO_FLAGS = {"generate_json_marshaller": True, "generate_strict_unmarshaller": False, "generate_equal": False, "generate_validate": False}
 PYTHON = "/usr/bin/python3"
 ID_BASE = 10000
 MC = ("SemanticsDefaultsMC", "SemanticsDefaultsMC.cfg")
@@ -31,7 +35,11 @@ N_GENERATED = 250
 # tokens: values TLC cannot hold (non-ASCII / escaped strings, integers beyond its 32 bits) travel as tokens in the
 # specification's universe and as the real value through cog, the generated code and the reference validators
 # ----------------------------------------------------------------------------------------------
-STR_TOKENS = {"@uni": "h\u00e9llo \u2713 \u65e5\u672c", "@esc": 'a"b\\c\nd\te'}
+STR_TOKENS = {"@uni": "h\u00e9llo \u2713 \u65e5\u672c", "@esc": 'a"b\\c\nd\te',
+              # backslashes that FORM escapes in a hand-written literal (\t \n \x41 \\ and a trailing one), both kinds of quotes
+              "@bs": "C:" + chr(92) + "temp" + chr(92) + "new" + chr(92) + "x41" + chr(92) + chr(92) + "e'q'" + chr(92),
+              # the same without the trailing backslash (the Go jenny's own hand-escaped literals do not survive that one: C02)
+              "@bt": "a" + chr(92) + "tb" + chr(92) + "new" + chr(92) + "x41" + chr(92) + chr(92) + "e'q'"}
 NUM_TOKENS = {7770001: 2 ** 53 + 1, 7770002: 2 ** 31 - 1, -7770002: -2 ** 31, 7770003: 2 ** 63 - 1, -7770003: -2 ** 63,
               7770004: 2 ** 64 - 1, 7770005: 2 ** 32 - 1, 7770006: 2 ** 24 + 1, 7770007: 3 * 10 ** 9, 7770008: 2 ** 53, -7770008: -2 ** 53}
 _STR_BACK = {v: k for k, v in STR_TOKENS.items()}
@@ -220,9 +228,33 @@ def _spell(x, spell):
     raise ValueError(spell)
 
 
-def _json_text(text, spell):
+_JS_SCALAR = ("string", "integer", "number", "boolean")
+
+
+def _json_text(text, spell, fmt="jsonschema"):
     doc = detok(json.loads(text))
     if spell == "plain":
+        return json.dumps(doc, indent=1)
+    if spell in ("const-first", "const-last"):
+        if fmt == "openapi":
+            raise sc.NotExpressible("openapi: no `const` to write T | constant with")
+        hit = [0]
+
+        def rewrite(node):
+            if isinstance(node, dict):
+                for k, v in list(node.items()):
+                    if isinstance(v, dict) and "default" in v and v.get("type") in _JS_SCALAR and set(v) <= {"type", "default", "format"}:
+                        branches = [{"const": v["default"]}, {k2: v[k2] for k2 in v if k2 != "default"}]
+                        node[k] = {"anyOf": branches if spell == "const-first" else branches[::-1]}
+                        hit[0] += 1
+                    else:
+                        rewrite(v)
+            elif isinstance(node, list):
+                for v in node:
+                    rewrite(v)
+        rewrite(doc)
+        if not hit[0]:
+            raise sc.NotExpressible("no scalar default to write as T | constant")
         return json.dumps(doc, indent=1)
     nums = []
 
@@ -262,17 +294,35 @@ _CUE_NUM = re.compile(r"-?\d+(?:\.\d+)?")
 def _cue_text(text, spell):
     for t, real in STR_TOKENS.items():
         text = text.replace(json.dumps(t), json.dumps(real))
-    for t, real in NUM_TOKENS.items():
+    for t, real in sorted(NUM_TOKENS.items()):          # negative tokens first: "-7770003" is one token, not minus 7770003
         text = re.sub(r"(?<![\w.])%s(?![\w.])" % re.escape(str(t)), str(real), text)
     # a nullable field with a default: the flat disjunction `T | null | *d` (cog rejects the parenthesised `(T | null) | *d` with
     # "unexpected node with kind '(null|T)'" - same CUE value, the flat one is the spelling it reads)
     text = re.sub(r"(?m)^(\s*\w+\??: )\((.+) \| null\) \| \*", r"\1\2 | null | *", text)
+    # field labels that are not identifiers are quoted ("max-value", "a b", "1st")
+    out_lines = []
+    for ln in text.split("\n"):
+        m = re.match(r"^(\t+)([^\t:\"#(\[{][^:]*?)(\??): ", ln)
+        if m and not re.fullmatch(r"[A-Za-z_$][A-Za-z0-9_$]*", m.group(2)):
+            ln = m.group(1) + json.dumps(m.group(2)) + m.group(3) + ": " + ln[m.end():]
+        out_lines.append(ln)
+    text = "\n".join(out_lines)
     # CUE tells 2 from 2.0: the default of a float-typed field is spelled as a float
     text = _CUE_FLOAT_INT_DEFAULT.sub(lambda m: m.group(1) + m.group(2) + ".0", text)
     if spell == "plain":
         return text
     lines = text.split("\n")
     hit = 0
+    if spell in ("const-first", "const-last"):
+        # `v: string | *"utc"`  ->  `v: "utc" | string` / `v: string | "utc"` (no default marker: the compiler pass makes it one)
+        for i, ln in enumerate(lines):
+            m = re.match(r"^(\s*\S+\??: )\(?([a-z0-9]+)\)? \| \*(.+)$", ln)
+            if m:
+                lines[i] = m.group(1) + ("%s | %s" % (m.group(3), m.group(2)) if spell == "const-first" else "%s | %s" % (m.group(2), m.group(3)))
+                hit += 1
+        if not hit:
+            raise sc.NotExpressible("cue: no scalar default to write as T | constant")
+        return "\n".join(lines)
     for i, ln in enumerate(lines):
         if " | *" not in ln:
             continue
@@ -325,7 +375,25 @@ def ref_validate(ctx, batch, items):
 def make_render_hook(batch):
     def hook(sid, fmt, pkg, text):
         spell = batch.cat[sid].get("spell", "plain")
-        return _cue_text(text, spell) if fmt == "cue" else _json_text(text, spell)
+        if fmt != "cue" and '"default": %d' % 7770004 in text:
+            # JSON Schema / OpenAPI integers are signed 64-bit for cog (no unsigned type to declare): 2^64-1 is outside the field's type
+            raise sc.NotExpressible("%s: no unsigned 64-bit integer type" % fmt)
+        return _cue_text(text, spell) if fmt == "cue" else _json_text(text, spell, fmt)
+    return hook
+
+
+_PASSES = "passes:\n  - disjunction_with_constant_to_default: {}\n"
+
+
+def make_yaml_hook(batch):
+    """units whose default is spelled `T | constant` enable the (opt-in) compiler pass that reads it as a default"""
+    def hook(sid, fmt, pkg, ytext):
+        if batch.cat[sid].get("spell") not in ("const-first", "const-last"):
+            return ytext
+        path = os.path.join(batch.gen_dir, "_in", "c10-passes.yaml")
+        if not os.path.exists(path):
+            open(path, "w").write(_PASSES)
+        return ytext + "transformations:\n  schemas:\n    - '%s'\n" % path
     return hook
 
 
@@ -338,6 +406,7 @@ def run_batch(ctx, select, want_cases=False, want_defaults=False, formats=sc.FOR
     b.cat = dict(sc.load_catalogue(ctx)) if with_base else {}
     b.cat.update(load_def_catalogue(ctx))
     b.render_hook = make_render_hook(b)
+    b.yaml_hook = make_yaml_hook(b)
     b.generated_pool = 0
     if deep:
         b.cat.update(load_deep_catalogue(ctx))
@@ -357,14 +426,19 @@ def run_batch(ctx, select, want_cases=False, want_defaults=False, formats=sc.FOR
         missing = [i for i in b.ids if b.cat[i]["schema"]["root"] not in b.defaults.get(i, {})]
         if missing:
             raise core.Inconclusive("no DefaultDoc for schemas %s" % missing[:5])
-    sc.generate(ctx, b, go_flags, (PY_LANG,), formats)
+    sc.generate(ctx, b, GO_FLAGS if go_flags is None else go_flags, (PY_LANG,), formats)
     try:
         sc.build(ctx, b)
     except core.Inconclusive as e:
         # Python is judged on its own: Go that does not compile (C02) only removes the Go side (replay of a single unit)
-        if "no generated package compiles" not in str(e):
-            raise
-        b.timing["build_s"] = 0.0
+        # ... and so does a generated runtime / driver that does not build under a change: the Go side is lost, recorded, not fatal
+        for u in b.units.values():
+            if u["status"] in ("generated", "ok", "retry"):
+                u["status"] = "not_executable"
+                u.setdefault("diagnostics", []).append("go side unusable: %s" % e)
+        b.go_unusable = str(e)
+        b.driver = None
+        b.timing.setdefault("build_s", 0.0)
     import_python(ctx, b)
     core.log("batch: %d schemas, %d units: go %s, python %s; gen %.1fs build %.1fs" % (
         len(b.ids), len(b.units), dict(collections.Counter(u["status"] for u in b.units.values())),
@@ -419,7 +493,7 @@ def import_python(ctx, batch):
             u["py_err"] = r.get("err", "")
             batch.stats["py_not_executable"] += 1
     if not any(u["py"] == "ok" for u in batch.units.values()):
-        raise core.Inconclusive("no generated python module imports: %s" % [u.get("py_err") for u in batch.units.values()][:3])
+        batch.python_unusable = "no generated python module imports: %s" % [u.get("py_err") for u in batch.units.values()][:3]
 
 
 # ----------------------------------------------------------------------------------------------
@@ -649,7 +723,7 @@ def value_type(S, f):
     if k == "ienum":
         return "int-enum-big-member" if abs(d) >= 7770000 else "int-enum-member"
     if k == "arr":
-        return "list-empty" if d == [] else "list-" + _SCALAR_NAME.get(sc.resolve(S, r["t"])["k"], "other")
+        return "list-empty" if d == [] else "list-" + _SCALAR_NAME.get(sc.resolve(S, r["t"])["k"], "list" if sc.resolve(S, r["t"])["k"] == "arr" else "other")
     if k == "struct":
         return "struct-override" if d else "struct-empty-override"
     if k == "union":
@@ -792,7 +866,68 @@ def unit_problems(batch):
     for u in batch.units.values():
         if u["status"] not in ("ok",):
             why = " ".join((u.get("why") or "; ".join(u.get("diagnostics", [])) or u.get("refval_err") or "").split()).replace(u["pkg"], "<pkg>")
+            why = re.sub(r"0x[0-9a-f]+", "0x..", why)
             out["%s/go/%s: %s" % (u["fmt"], u["status"], why[:200])] += 1
         if u.get("py") == "not_executable":
             out["%s/python/not_executable: %s" % (u["fmt"], u.get("py_err", "")[:140])] += 1
     return dict(out)
+
+
+# ----------------------------------------------------------------------------------------------
+# the check's own escape hatches (notes/MUTATION_CLASSES.md 14, 15)
+# ----------------------------------------------------------------------------------------------
+def settle(ctx, soft):
+    """A vacuity gate, a failed self-test or a disagreement between TLC and the python join makes the run inconclusive ONLY when no
+    violation outside the known findings was observed: observed violations are reported (exit 1), the reasons become notes."""
+    if not soft:
+        return
+    known = {k.get("signature") for k in core.load_known() if k["property"] == ctx.pid and k.get("status", "known") == "known"}
+    if any(f["signature"] not in known for f in ctx.failures):
+        for m in soft:
+            ctx.notes.append("not enforced because violations were observed: " + m)
+        return
+    raise core.Inconclusive("; ".join(soft))
+
+
+def run_driver_safe(ctx, batch, commands, name):
+    """sc.run_driver; when the driver PROCESS dies (fatal error in generated code: stack overflow, out of memory - not a recoverable
+    panic) the commands are re-run one package at a time and the death is attributed to the package that causes it."""
+    try:
+        return sc.run_driver(ctx, batch, commands, name)
+    except core.Inconclusive as e:
+        first = str(e)
+    groups = collections.defaultdict(list)
+    for c in commands:
+        groups[c["type"].split(".")[0]].append(c)
+    res = {}
+    for pkg, cs in sorted(groups.items()):
+        try:
+            res.update(sc.run_driver(ctx, batch, cs, "%s-%s" % (name, pkg)))
+        except core.Inconclusive as e:
+            for c in cs:
+                res[c["id"]] = {"id": c["id"], "op": c["op"], "panic": "the driver process died while running this package (%s)" % e, "crash": True,
+                                "std_err": "driver process died", "strict_err": None, "has_strict": False}
+    if not any(r.get("crash") for r in res.values()):
+        raise core.Inconclusive(first)
+    return res
+
+
+def run_pydriver_safe(ctx, batch, commands, name):
+    try:
+        return run_pydriver(ctx, batch, commands, name)
+    except core.Inconclusive as e:
+        first = str(e)
+    groups = collections.defaultdict(list)
+    for c in commands:
+        groups[c["module"]].append(c)
+    res = {}
+    for mod, cs in sorted(groups.items()):
+        try:
+            res.update(run_pydriver(ctx, batch, cs, "%s-%s" % (name, mod)))
+        except core.Inconclusive as e:
+            for c in cs:
+                res[c["id"]] = {"id": c["id"], "op": c["op"], "ok": False, "stage": "crash", "crash": True,
+                                "err": "FatalError: the python process died while running this module (%s)" % e}
+    if not any(r.get("crash") for r in res.values()):
+        raise core.Inconclusive(first)
+    return res
